@@ -581,6 +581,8 @@ class Check:
         if os.path.isdir(self.out):
             shutil.rmtree(self.out, ignore_errors=True)
         os.makedirs(self.out, exist_ok=True)
+        os.makedirs(os.path.join(self.out, "scratch"), exist_ok=True)
+        os.environ["HEX_SCRATCH"] = os.path.join(self.out, "scratch")   # native harnesses put their temporary files here
         os.makedirs(os.path.join(OUTROOT, "replay"), exist_ok=True)
         self.manifest = []       # extraction manifest
         self.assumptions = []
